@@ -484,17 +484,41 @@ pub fn take_events(root: &Path) -> Vec<(char, String)> {
 
 /// `E<kind>:<hex path>,…><kind>:…`: maximal runs of events of one kind (= the phases of a flush; the effects of one
 /// phase run concurrently on the io threads, so they are sorted), `E_` when nothing happened.
+/// Files of TRANSIENT partitions (stored and removed again in the same step: a new partition that the same flush
+/// merges away) are left out — their sub-partition keys never reach the catalogue, so the model cannot name them.
 pub fn effects_tok(ev: &[(char, String)]) -> String {
-    if ev.is_empty() { return "E_".into(); }
+    let stored: std::collections::HashSet<&String> = ev.iter().filter(|e| e.0 == 's').map(|e| &e.1).collect();
+    let transient: std::collections::HashSet<&String> = ev.iter().filter(|e| e.0 == 'd' && stored.contains(&e.1)).map(|e| &e.1).collect();
     let mut phases: Vec<(char, Vec<String>)> = vec![];
     for (k, p) in ev {
+        if (*k == 's' || *k == 'd') && transient.contains(p) { continue; }
         match phases.last_mut() {
             Some((lk, ps)) if *lk == *k => ps.push(hexs(p)),
             _ => phases.push((*k, vec![hexs(p)])),
         }
     }
+    if phases.is_empty() { return "E_".into(); }
     let toks: Vec<String> = phases.into_iter().map(|(k, mut ps)| { ps.sort(); format!("{}:{}", k, ps.join(",")) }).collect();
     format!("E{}", toks.join(">"))
+}
+
+/// Events of the step that just ended.  The callback `delete:done` runs AFTER the file is gone, so the listing can be
+/// stable before the last removal of a background flush was recorded: wait until every log segment that existed
+/// (before the step or stored during it) and is no longer in `wal/` has its removal event.
+pub fn collect_step_events(root: &Path, wal_before: &[String]) -> Vec<(char, String)> {
+    let t0 = Instant::now();
+    let mut ev: Vec<(char, String)> = vec![];
+    loop {
+        ev.extend(take_events(root));
+        let present: std::collections::HashSet<String> = wal_files(root).iter()
+            .filter_map(|p| p.strip_prefix(root).ok().map(|r| r.to_string_lossy().to_string())).collect();
+        let mut known: Vec<String> = wal_before.to_vec();
+        for (k, p) in &ev { if *k == 'w' { known.push(p.clone()); } }
+        let pending = known.iter().any(|p| !present.contains(p) && !ev.iter().any(|(k, q)| *k == 'x' && q == p));
+        if !pending || t0.elapsed() > Duration::from_secs(20) { break; }
+        std::thread::sleep(Duration::from_millis(10));
+    }
+    ev
 }
 
 // ---------------------------------------------------------------------------------------------
@@ -525,9 +549,11 @@ pub fn run_history_deadline(cfg: &Cfg, steps: &[Step], deadline: u64) -> Vec<Ste
     let mut prev_meta = read_meta(dir.path());
     let _ = take_events(dir.path());
     for (i, st) in steps.iter().enumerate() {
+        let wal_before: Vec<String> = wal_files(dir.path()).iter()
+            .filter_map(|p| p.strip_prefix(dir.path()).ok().map(|r| r.to_string_lossy().to_string())).collect();
         sut.apply(st);
         if let Step::Restart = st { if sut.alive() { sut.settle(); } }
-        let effects = effects_tok(&take_events(dir.path()));
+        let effects = effects_tok(&collect_step_events(dir.path(), &wal_before));
         let meta = read_meta(dir.path());
         let mut kind = st.kind().to_string();
         let toks = match st {
